@@ -18,8 +18,8 @@ MODELLED = ("javacode.c: jcBinOpPrint jc0PrintWithParens jc0NeedsParens + the cl
             "(not: jcUnaryOpPrint - probed against Java's grammar only; statements, declarations, layout)")
 _P = "AldorVerif.Props.C12Print"
 THEOREMS = [(_P, "AldorVerif.C12." + t) for t in (
-    "printer_rule_is_standard", "print_parse_roundtrip", "table_consistent_statement_refuted",
-    "bitwise_misread_witness", "core_consistent", "print_parse_roundtrip_partial")]
+    "printer_rule_is_standard", "print_parse_roundtrip", "table_consistent", "print_parse_roundtrip_table",
+    "equal_level_table_misreads")]
 
 # Java (JLS 15.17-15.24): level of each binary operator, all left-associative
 JLS = {"*": 12, "/": 12, "%": 12, "+": 11, "-": 11, "<<": 10, ">>": 10, ">>>": 10, "<": 9, "<=": 9, ">": 9, ">=": 9,
@@ -109,29 +109,6 @@ def gen_trees(rng, thorough):
 
 def has_unary(t): return any(x in UN for x in t)
 
-def inconsistent_pair(tree):
-    """does the tree put an operator of lower Java level, but equal class precedence in the compiler's table
-    (& ^ | share 7, && || share 4), where the printer omits parentheses: the recorded table defect"""
-    groups = [("&", "^", "|"), ("&&", "||")]
-    def walk(t, i):
-        # returns (end index, root text or None)
-        x = t[i]
-        if x in BIN:
-            j, lroot = walk(t, i + 1)
-            k, rroot = walk(t, j)
-            me = BIN[x]
-            bad = False
-            for g in groups:
-                if me in g and lroot in g and JLS[lroot] < JLS[me]: bad = True      # left operand, no parentheses
-            found[0] = found[0] or bad
-            return k, me
-        if x in UN:
-            j, _ = walk(t, i + 1); return j, None
-        return i + 1, None
-    found = [False]
-    walk(tree, 0)
-    return found[0]
-
 def run_part(ctx, build):
     exe = build.cc_driver("jprint_drv", os.path.join(VERIF, "harness", "jprint_drv.c"))
     trees = []
@@ -145,7 +122,7 @@ def run_part(ctx, build):
     impl = common.run_impl_lines(exe, lines)
     model, tags = common.split_model(common.run_model("jprint", "\n".join(lines) + "\n"))
     assert len(model) == len(lines)
-    st = {"lines": len(lines), "corpus": ncorpus, "mismatch": 0, "read_back_ok": 0, "table_defect_trees": 0, "unary_trees": 0,
+    st = {"lines": len(lines), "corpus": ncorpus, "mismatch": 0, "read_back_ok": 0, "unary_trees": 0,
           "double_negate": 0, "tags": common.tag_hist(tags), "distinct_results": 0}
     seen = set()
     st["misprints"] = 0
@@ -183,13 +160,7 @@ def run_part(ctx, build):
             else:
                 ctx.corr_broken.append(("jprint", ln, ctoks, mo))
         elif not impl_ok:
-            if inconsistent_pair(t):
-                st["table_defect_trees"] += 1
-                ctx.finding("jprint|table-inconsistent-with-java",
-                            "the printer's class table gives & | ^ one precedence (7) and && || one (4); Java ranks & > ^ > | and && > ||, "
-                            "so a left operand from the lower Java level is printed without the parentheses Java needs, e.g. `%s` -> `%s`: %s" % (ln, co, why),
-                            {"kind": "impl-violates-property", "line": ln, "impl": co, "why": why, "theorem": "table_consistent_statement_refuted"})
-            elif un and "--" in (toks or []):
+            if un and "--" in (toks or []):
                 st["double_negate"] += 1
                 ctx.finding("jprint|negate-of-negate-is-decrement",
                             "jcUnaryOpPrint writes a negation of a negation as `--x`, which Java's lexer reads as the decrement operator, e.g. `%s` -> `%s`" % (ln, co),
@@ -199,8 +170,8 @@ def run_part(ctx, build):
                          {"kind": "impl-violates-property", "line": ln, "impl": co, "why": why})
             else:
                 ctx.violation("jprint|model-and-impl-wrong|" + ln,
-                              "printer and model agree on `%s` -> `%s` but %s, and the tree has no operand pair of the recorded table defect "
-                              "(contradicts print_parse_roundtrip_partial: model or oracle defect)" % (ln, co, why),
+                              "printer and model agree on `%s` -> `%s` but %s (contradicts print_parse_roundtrip_table: the table is "
+                              "no longer consistent with Java's ranking, or a defect of model / oracle)" % (ln, co, why),
                               {"kind": "inconsistent", "line": ln, "impl": co})
         if k % 4000 == 13:
             ctx.sample({"module": "jprint", "request": ln, "impl": co, "model": mo, "java_reads_it_back": impl_ok})
